@@ -37,6 +37,8 @@ KEYS = {"K1": ("p", "query"), "K2": ("p", "header"), "K3": ("q", "query")}
 SINGLE_PREFIX = {"shared/params": "components/parameters", "shared/more": "components/parameters",
                  "shared/bodies": "components/requestBodies", "shared/schemas": "components/schemas",
                  "shared/sec": "components/x-sec", "items/m": "x-items/m", "items/missing": "x-items/missing"}
+SINGLE_PREFIX_20 = dict(SINGLE_PREFIX, **{"shared/params": "parameters", "shared/more": "parameters", "shared/bodies": "parameters",
+                                            "shared/schemas": "definitions"})
 UNQUOTED_VALUES = {"2020-01-01"}  # date-like scalar deliberately written plain in YAML
 
 
@@ -46,6 +48,8 @@ UNQUOTED_VALUES = {"2020-01-01"}  # date-like scalar deliberately written plain 
 class _Builder:
     def __init__(self, d: dict, lay: str, ext: str):
         self.d, self.lay, self.ext = d, lay, ext
+        self.v2 = d.get("ver", "3.0") == "2.0"
+        self.prefix = SINGLE_PREFIX_20 if self.v2 else SINGLE_PREFIX
         self.files: dict[str, dict] = {"api": {}}
         if lay == "multi":
             for f in ("shared/params", "shared/more", "shared/bodies", "shared/schemas", "shared/sec"):
@@ -54,7 +58,7 @@ class _Builder:
     def ref(self, frm: str, to: str, name: str | None) -> str:
         """Reference from logical file `frm` to entry `name` (None = the whole file) of logical file `to`."""
         if self.lay == "single":
-            return "#/" + SINGLE_PREFIX[to] + ("/" + name if name else "")
+            return "#/" + self.prefix[to] + ("/" + name if name else "")
         frag = "#/" + name if name else ""
         if frm == to:
             return frag
@@ -64,7 +68,7 @@ class _Builder:
     def put(self, to: str, name: str, value: dict) -> None:
         if self.lay == "single":
             node = self.files["api"]
-            for part in SINGLE_PREFIX[to].split("/"):
+            for part in self.prefix[to].split("/"):
                 node = node.setdefault(part, {})
             node[name] = value
         else:
@@ -83,7 +87,10 @@ class _Builder:
     def build(self) -> dict[str, dict]:
         d = self.d
         item_file = "items/m" if (d["pathRef"] and self.lay == "multi") else "api"
-        pdef = lambda n, l, r, g: {"name": n, "in": l, "required": r, "schema": {"type": "string", "maxLength": g}}
+        v2 = self.v2
+        comp_params = "#/parameters/" if v2 else "#/components/parameters/"
+        pdef = lambda n, l, r, g: ({"name": n, "in": l, "required": r, "type": "string", "maxLength": g} if v2 else
+                                   {"name": n, "in": l, "required": r, "schema": {"type": "string", "maxLength": g}})
         # path-level parameters
         shared = [self.param(item_file, "P_id", pdef("id", "path", True, 3), d["pdepth"])]
         for k in ("K1", "K2"):
@@ -113,47 +120,70 @@ class _Builder:
                 jschema: dict = {"$ref": self.ref(body_file, "shared/schemas", "Node")}
             else:
                 jschema = {"type": "object", "maxProperties": 5, "properties": props}
-            content = {"application/json": {"schema": jschema}}
-            if d["body"] in ("two", "ref"):
-                content["text/plain"] = {"schema": {"type": "string", "maxLength": 7}}
-            if d["body"] == "ref":
-                content["application/xml"] = {"schema": {"type": "string", "maxLength": 8}}
-            body: dict = {"content": content}
-            if d["body"] != "one":
-                body["required"] = True
-            if d["body"] == "ref":
-                self.put("shared/bodies", "B", body)
-                body = {"$ref": self.ref(item_file, "shared/bodies", "B")}
-            m["requestBody"] = body
+            if v2:
+                # Swagger 2.0: one body parameter, offered under every media type of `consumes`
+                bparam: dict = {"name": "body", "in": "body", "schema": jschema}
+                if d["body"] != "one":
+                    bparam["required"] = True
+                    m["consumes"] = ["application/json", "text/plain"] + (["application/xml"] if d["body"] == "ref" else [])
+                if d["body"] == "ref":
+                    self.put("shared/bodies", "B", bparam)
+                    bparam = {"$ref": self.ref(item_file, "shared/bodies", "B")}
+                m["parameters"] = own + [bparam]
+            else:
+                content = {"application/json": {"schema": jschema}}
+                if d["body"] in ("two", "ref"):
+                    content["text/plain"] = {"schema": {"type": "string", "maxLength": 7}}
+                if d["body"] == "ref":
+                    content["application/xml"] = {"schema": {"type": "string", "maxLength": 8}}
+                    content["multipart/form-data"] = {"schema": {"maxProperties": 9, "properties": {"f": {"type": "string"}}}}
+                body: dict = {"content": content}
+                if d["body"] != "one":
+                    body["required"] = True
+                if d["body"] == "ref":
+                    self.put("shared/bodies", "B", body)
+                    body = {"$ref": self.ref(item_file, "shared/bodies", "B")}
+                m["requestBody"] = body
         if d["sec"] == "off":
             m["security"] = []
         m["responses"] = {"200": {"description": "ok"}, "404": {"description": "nf"}, "default": {"description": "x"}}
         o = {"operationId": "opO", "responses": {"200": {"description": "ok"}}}
+        if d.get("oNoId"):
+            del o["operationId"]
         collide = d.get("collide", False)
         lim = lambda r, g: pdef("lim", "query", r, g)
         if collide:
             # the SAME pointer text in two documents (multi-file); one document cannot hold two definitions under one pointer
             own_doc = d["pathRef"] and self.lay == "multi"
-            shared.append({"$ref": "#/components/parameters/" + ("Lim" if own_doc else "Lim_item")})
+            shared.append({"$ref": comp_params + ("Lim" if own_doc else "Lim_item")})
         item = {"parameters": shared, "post": m, "get": o}
         # Z
         zparams: list = [pdef("q", "query", False, 4)]
         if collide:
-            zparams.append({"$ref": "#/components/parameters/Lim"})
+            zparams.append({"$ref": comp_params + "Lim"})
+        if d.get("qcontent"):
+            zparams[0] = {"name": "q", "in": "query", "required": False,
+                          "content": {"application/json": {"schema": {"type": "string", "maxLength": 4}}}}
         if d["bad"] == "paramref":
             zparams = [{"$ref": self.ref("api", "shared/params", "Missing")}]
+        elif d["bad"] == "hdrname":
+            zparams = [pdef("X-\u041a\u043b\u044e\u0447", "header", False, 4)]  # not a token: header names are ASCII
+        elif d["bad"] == "noschema":
+            zparams = [{"name": "q", "in": "query", "required": False}]  # 3.x: neither `schema` nor `content`
         elif d["bad"] == "noin":
-            zparams = [{"name": "q", "required": False, "schema": {"type": "string", "maxLength": 4}}]
+            zparams = [{k: v for k, v in pdef("q", "query", False, 4).items() if k != "in"}]
         z_item: dict = {"post": {"operationId": "opZ", "parameters": zparams, "responses": {"200": {"description": "ok"}}}}
         if d["bad"] == "itemref":
             z_item = {"$ref": self.ref("api", "items/missing", None)}
         api = self.files["api"]
-        root: dict = {"openapi": "3.0.2", "info": {"title": "t", "version": "1"}}
+        root: dict = {"swagger": "2.0"} if v2 else {"openapi": "3.1.0" if d.get("ver") == "3.1" else "3.0.2"}
+        root["info"] = {"title": "t", "version": "1"}
         zpath = d.get("zpath", "/z")
         if d["pathRef"]:
             if self.lay == "multi":
                 if collide:  # the external document: the path item plus ITS OWN components under the same pointer text
-                    self.files["items/m"] = {"item": item, "components": {"parameters": {"Lim": lim(d["orient"] == "pT", 13)}}}
+                    own_lim = {"Lim": lim(d["orient"] == "pT", 13)}
+                    self.files["items/m"] = {"item": item, **({"parameters": own_lim} if v2 else {"components": {"parameters": own_lim}})}
                 else:
                     self.files["items/m"] = item
             else:
@@ -165,18 +195,22 @@ class _Builder:
             paths[W_PATH[zpath]] = {"post": {"operationId": "opW", "parameters": [pdef("w", "query", False, 11)],
                                              "responses": {"200": {"description": "ok"}}}}
         if collide:
-            comp = api.setdefault("components", {}).setdefault("parameters", {})
+            comp = api.setdefault("parameters", {}) if v2 else api.setdefault("components", {}).setdefault("parameters", {})
             comp["Lim"] = lim(False, 12)
             if not (d["pathRef"] and self.lay == "multi"):
                 comp["Lim_item"] = lim(d["orient"] == "pT", 13)
         root["paths"] = paths
         if d["sec"] != "none":
-            scheme = {"qry": {"type": "apiKey", "name": "k", "in": "query"},
-                      "basic": {"type": "http", "scheme": "basic"}}.get(d["sec"], {"type": "apiKey", "name": "X-Key", "in": "header"})
+            scheme = {"qry": {"type": "apiKey", "name": "k", "in": "query"}, "clash": {"type": "apiKey", "name": "p", "in": "query"},
+                      "basic": {"type": "basic"} if v2 else {"type": "http", "scheme": "basic"}}.get(
+                d["sec"], {"type": "apiKey", "name": "X-Key", "in": "header"})
             if d["sec"] == "ref":
                 self.put("shared/sec", "k", scheme)
                 scheme = {"$ref": self.ref("api", "shared/sec", "k")}
-            api.setdefault("components", {}).setdefault("securitySchemes", {})["k"] = scheme
+            if v2:
+                api["securityDefinitions"] = {"k": scheme}
+            else:
+                api.setdefault("components", {}).setdefault("securitySchemes", {})["k"] = scheme
             root["security"] = [{"k": []}]
         for k, v in api.items():  # keep a conventional key order: openapi, info, paths, security, components, x-items
             if k not in root:
@@ -284,7 +318,7 @@ def _ty(v) -> list:
     return [type(v).__name__, str(v)]
 
 
-_EMPTY = {"params": [], "plist": [], "bodies": [], "resp": [], "props": [], "date": ["", ""]}
+_EMPTY = {"params": [], "plist": [], "bodies": [], "resp": [], "props": [], "date": ["", ""], "ref": ["", ""]}
 
 
 def project(op) -> dict:
@@ -309,7 +343,9 @@ def project(op) -> dict:
                 if str(k) == "v" and isinstance(v, dict) and "default" in v:
                     date = _ty(v["default"])
     resp = [_ty(k) for k in (op.definition.raw.get("responses") or {})]
+    m = re.fullmatch(r"#/paths/([^/]*)/([^/]*)", str(op.operation_reference))  # the operation's own JSON reference
     return {"ok": True, "path": str(op.path), "method": str(op.method).lower(), "params": params, "plist": plist,
+            "ref": [m.group(1), m.group(2)] if m else ["?", "?"],
             "bodies": bodies, "resp": resp, "props": props, "date": date}
 
 
@@ -322,6 +358,10 @@ def _project_safe(op) -> dict:
     try:
         return project(op)
     except Exception as exc:  # an "offered" operation whose inputs cannot even be read is not an Ok outcome
+        from schemathesis.core.errors import InvalidSchema
+
+        if isinstance(exc, InvalidSchema) and exc.path:
+            return dict(_err(exc), exc="deferred:InvalidSchema")  # reported as a schema error naming the path when the inputs are built
         return dict(_err(exc), path="", exc="projection:" + type(exc).__name__)
 
 
@@ -349,6 +389,10 @@ def observe(d: dict, ser: str, lay: str, h: list[dict]) -> list[dict]:
     import schemathesis
 
     schema = schemathesis.openapi.from_path(ensure_files(d, ser, lay))
+    if not d.get("secgen", True):
+        from schemathesis.generation import GenerationConfig
+
+        schema.configure(generation=GenerationConfig(with_security_parameters=False))
     depth0 = len(schema.resolver._scopes_stack)
     obs = []
     for a in h:
@@ -382,9 +426,18 @@ def _match(it: dict, e: dict, d: dict, t: str, via_iter: bool) -> list[str]:
     if it["path"] != e["path"] or it["method"] != e["method"]:
         return ["outcome:wrong-operation"]  # every other difference is a consequence
     why = []
+    if it["ref"] != [e["esc"], e["method"]]:
+        why.append("outcome:own-reference-differs")
     exp = _pset(e["params"])
-    gen = _param_diff(it["params"], exp, d, t, "params")
-    lst = _param_diff(it["plist"], exp, d, t, "plist")
+    free = {(k["name"], k["loc"]) for k in e.get("free", [])}
+    views = {}
+    for view in ("params", "plist"):
+        kept = [p for p in it[view] if (p["name"], p["loc"]) not in free]
+        if any(sum(1 for p in it[view] if (p["name"], p["loc"]) == k) != 1 for k in free):
+            why.append("param:security-clash:not-exactly-one")
+        views[view] = kept
+    gen = _param_diff(views["params"], exp, d, t, "params")
+    lst = _param_diff(views["plist"], exp, d, t, "plist")
     if any(r.startswith("param-merge:same-name-same-location") for r in gen):
         # one defect, one reason: the container symptom of the same key is not reported separately
         lst = [r for r in lst if not r.startswith("param-merge:same-name-same-location")]
@@ -456,6 +509,8 @@ def judge_access(d: dict, a: dict, judged: bool, exp: dict, o: dict) -> list[str
     if not judged:
         return why
     items = o["items"]
+    if a["k"] == "id" and a["t"] == "O" and d.get("oNoId"):
+        return why + ([] if len(items) == 1 and not items[0]["ok"] else ["outcome:unknown-id-found"])
     if a["k"] != "iter":
         if len(items) != 1:
             return why + ["outcome:lookup-arity"]
@@ -487,7 +542,7 @@ def case_failures(case: dict, obs: list[dict]) -> dict[int, list[str]]:
 
 ROUTE = {"iter": "iterate", "path": "path-method", "id": "operationId", "ref": "reference"}
 BASE = {"plK1": True, "plK2": False, "olK1": True, "olK2": False, "olK3": False, "orient": "pT", "pdepth": 1, "odepth": 0,
-        "pathRef": False, "body": "two", "rec": False, "cross": "none", "zpath": "/z", "collide": False, "sec": "hdr", "bad": "none"}
+        "pathRef": False, "body": "two", "rec": False, "cross": "none", "zpath": "/z", "collide": False, "ver": "3.0", "qcontent": False, "secgen": True, "oNoId": False, "sec": "hdr", "bad": "none"}
 
 
 def _rel(a: tuple, b: tuple) -> str:
@@ -712,7 +767,8 @@ def selftest(ctx: Ctx) -> bool:
 
     _root.append(ctx.path("docs"))
     d = {"plK1": True, "plK2": False, "olK1": True, "olK2": False, "olK3": False, "orient": "pT", "pdepth": 1, "odepth": 0,
-         "pathRef": False, "body": "two", "rec": False, "cross": "none", "zpath": "/z", "collide": False, "sec": "hdr", "bad": "paramref"}
+         "pathRef": False, "body": "two", "rec": False, "cross": "none", "zpath": "/z", "collide": False, "ver": "3.0", "qcontent": False, "secgen": True, "oNoId": False,
+         "sec": "hdr", "bad": "paramref"}
     main = ensure_files(d, "yaml", "single")
     std = yaml.safe_load(open(main))
     post = std["paths"]["/m/{id}"]["post"]
